@@ -1,5 +1,5 @@
 (* C13 — lemmas about the slice model (M_slice). *)
-From Coq Require Import ZArith List Bool Arith Lia Sorting.Sorted.
+From Coq Require Import ZArith List Bool Arith Lia Sorting.Sorted Sorting.Permutation.
 From PB Require Import model.M_slice.
 Import ListNotations.
 Open Scope Z_scope.
@@ -13,23 +13,43 @@ Proof. induction 1; simpl; [reflexivity|]. now rewrite H, IHForall. Qed.
 Lemma filter_none {A} (p : A -> bool) l : Forall (fun a => p a = false) l -> filter p l = [].
 Proof. induction 1; simpl; [reflexivity|]. now rewrite H. Qed.
 
-(* on a sorted index a label slice is the same as the mask *)
-Lemma dropwhile_mono {A} (p : Z -> bool) (rows : list (Z * A)) : sorted rows ->
-  (forall t t', t < t' -> p t = true -> p t' = true) ->
+(* time order, repeated timestamps allowed *)
+Definition wsorted {A} (rows : list (Z * A)) := StronglySorted (fun a b => fst a <= fst b) rows.
+Lemma sorted_wsorted {A} (rows : list (Z * A)) : sorted rows -> wsorted rows.
+Proof.
+  induction 1 as [|a l S IH F]; constructor; [exact IH|]. eapply Forall_impl; [|exact F]. intros b Hb. simpl in *. lia.
+Qed.
+Lemma is_mono_wsorted {A} (rows : list (Z * A)) : is_mono rows = true -> wsorted rows.
+Proof.
+  intros H. apply Sorted_StronglySorted; [intros x y z; simpl; lia|].
+  induction rows as [|a [|b t] IH]; [constructor | constructor; constructor |].
+  change (is_mono (a :: b :: t)) with ((fst a <=? fst b) && is_mono (b :: t)) in H.
+  apply andb_true_iff in H. destruct H as [H1 H2]. apply Z.leb_le in H1.
+  constructor; [now apply IH | constructor; exact H1].
+Qed.
+
+(* on an index in time order a label slice is the same as the mask *)
+Lemma dropwhile_mono {A} (p : Z -> bool) (rows : list (Z * A)) : wsorted rows ->
+  (forall t t', t <= t' -> p t = true -> p t' = true) ->
   dropwhile (fun r => negb (p (fst r))) rows = filter (fun r => p (fst r)) rows.
 Proof.
   intros S M. induction S as [|a l S IH F]; simpl; [reflexivity|].
   destruct (p (fst a)) eqn:E; simpl; [|exact IH].
   f_equal. symmetry. apply filter_all. eapply Forall_impl; [|exact F]. intros b Hb. simpl in Hb. now apply (M (fst a)).
 Qed.
-Lemma takewhile_anti {A} (q : Z -> bool) (rows : list (Z * A)) : sorted rows ->
-  (forall t t', t < t' -> q t' = true -> q t = true) ->
+Lemma takewhile_anti {A} (q : Z -> bool) (rows : list (Z * A)) : wsorted rows ->
+  (forall t t', t <= t' -> q t' = true -> q t = true) ->
   takewhile (fun r => q (fst r)) rows = filter (fun r => q (fst r)) rows.
 Proof.
   intros S M. induction S as [|a l S IH F]; simpl; [reflexivity|].
   destruct (q (fst a)) eqn:E; simpl; [now f_equal|].
   symmetry. apply filter_none. eapply Forall_impl; [|exact F]. intros b Hb. simpl in Hb.
   destruct (q (fst b)) eqn:Eb; [|reflexivity]. rewrite (M (fst a) (fst b) Hb Eb) in E. discriminate.
+Qed.
+Lemma wsorted_filter {A} (p : Z * A -> bool) rows : wsorted rows -> wsorted (filter p rows).
+Proof.
+  induction 1 as [|a l S IH F]; simpl; [constructor|]. destruct (p a); [|exact IH].
+  constructor; [exact IH|]. rewrite Forall_forall in *. intros b Hb. apply filter_In in Hb. now apply F.
 Qed.
 Lemma sorted_filter {A} (p : Z * A -> bool) rows : sorted rows -> sorted (filter p rows).
 Proof.
@@ -40,30 +60,32 @@ Qed.
 Section WithDay.
 Variable day : Z.
 
-Lemma ge_lb_mono lb : is_tod lb = false -> forall t t', t < t' -> ge_lb day true lb t = true -> ge_lb day true lb t' = true.
+Lemma ge_lb_mono lb : is_tod lb = false -> forall t t', t <= t' -> ge_lb day true lb t = true -> ge_lb day true lb t' = true.
 Proof. destruct lb as [|b|h]; simpl; intros H t t' L; try discriminate; auto. rewrite !Z.leb_le. lia. Qed.
-Lemma le_ub_anti ub : is_tod ub = false -> forall t t', t < t' -> le_ub day true ub t' = true -> le_ub day true ub t = true.
+Lemma le_ub_anti ub : is_tod ub = false -> forall t t', t <= t' -> le_ub day true ub t' = true -> le_ub day true ub t = true.
 Proof. destruct ub as [|b|h]; simpl; intros H t t' L; try discriminate; auto. rewrite !Z.leb_le. lia. Qed.
 
-Lemma label_slice_filter {A} lb ub (rows : list (Z * A)) : sorted rows -> is_tod lb = false -> is_tod ub = false ->
+Lemma label_slice_filter {A} lb ub (rows : list (Z * A)) : wsorted rows -> is_tod lb = false -> is_tod ub = false ->
   label_slice day lb ub rows = filter (fun r => ge_lb day true lb (fst r) && le_ub day true ub (fst r)) rows.
 Proof.
   intros S Hl Hu. unfold label_slice.
   rewrite (dropwhile_mono (ge_lb day true lb) rows S (ge_lb_mono lb Hl)).
-  rewrite (takewhile_anti (le_ub day true ub) _ (sorted_filter _ rows S) (le_ub_anti ub Hu)).
+  rewrite (takewhile_anti (le_ub day true ub) _ (wsorted_filter _ rows S) (le_ub_anti ub Hu)).
   apply filter_filter.
 Qed.
 
-(* _df_slice: exactly the rows inside the bracketed window, in their order, untouched *)
-Theorem slice1_exact {A} oc lb ub (rows : list (Z * A)) : sorted rows ->
+(* _df_slice: exactly the rows inside the bracketed window, in their stored order, untouched -
+   for an index in ANY order, with or without repeated timestamps *)
+Theorem slice1_exact_any {A} oc lb ub (rows : list (Z * A)) :
   slice1 day oc lb ub rows = filter (fun r => in_window day oc lb ub (fst r)) rows.
 Proof.
-  intros S. unfold slice1, in_window.
+  unfold slice1, in_window.
   destruct (is_none lb && is_none ub) eqn:N.
   - apply andb_true_iff in N. destruct N as [N1 N2]. destruct lb, ub; try discriminate. simpl.
     symmetry. apply filter_all. apply Forall_forall. reflexivity.
-  - destruct ((fst oc || is_none lb) && (snd oc || is_none ub) && negb (is_tod lb) && negb (is_tod ub)) eqn:F.
-    + apply andb_true_iff in F. destruct F as [F Hu]. apply andb_true_iff in F. destruct F as [F Hl].
+  - destruct ((fst oc || is_none lb) && (snd oc || is_none ub) && negb (is_tod lb) && negb (is_tod ub) && is_mono rows) eqn:F.
+    + apply andb_true_iff in F. destruct F as [F S]. apply is_mono_wsorted in S.
+      apply andb_true_iff in F. destruct F as [F Hu]. apply andb_true_iff in F. destruct F as [F Hl].
       apply andb_true_iff in F. destruct F as [Fl Fu].
       apply negb_true_iff in Hl. apply negb_true_iff in Hu. rewrite (label_slice_filter lb ub rows S Hl Hu).
       apply filter_ext. intros r. f_equal.
@@ -71,6 +93,9 @@ Proof.
       * destruct (snd oc); [reflexivity|]. destruct ub; try discriminate; reflexivity.
     + unfold mask_slice. apply filter_filter.
 Qed.
+Theorem slice1_exact {A} oc lb ub (rows : list (Z * A)) : sorted rows ->
+  slice1 day oc lb ub rows = filter (fun r => in_window day oc lb ub (fst r)) rows.
+Proof. intros _. apply slice1_exact_any. Qed.
 
 (* merging two disjoint selections of a sorted list *)
 Lemma merge_nil_r {A} (a : list (Z * A)) : merge a [] = a.
@@ -99,18 +124,101 @@ Proof.
   - exact IH.
 Qed.
 
+(* sort_index (stable insertion sort) *)
+Lemma merge_cons {A} (x y : Z * A) a b :
+  merge (x :: a) (y :: b) = if fst x <=? fst y then x :: merge a (y :: b) else y :: merge (x :: a) b.
+Proof. reflexivity. Qed.
+Lemma insert_merge {A} (x : Z * A) a : Forall (fun y => fst x <= fst y) a -> forall b, insert x (merge a b) = merge (x :: a) b.
+Proof.
+  intros Fa. induction b as [|y b IH].
+  - rewrite !merge_nil_r. destruct a as [|z a]; [reflexivity|]. inversion Fa; subst. simpl.
+    destruct (fst x <=? fst z) eqn:E; [reflexivity | apply Z.leb_gt in E; lia].
+  - destruct a as [|z a].
+    + rewrite merge_nil_l in *. rewrite merge_cons. cbn [insert]. destruct (fst x <=? fst y); [now rewrite merge_nil_l | now rewrite IH].
+    + inversion Fa; subst. rewrite (merge_cons z y), (merge_cons x y). destruct (fst z <=? fst y) eqn:E1.
+      * pose proof (proj1 (Z.leb_le _ _) E1) as E1'. cbn [insert].
+        destruct (fst x <=? fst z) eqn:E2; [|apply Z.leb_gt in E2; lia].
+        destruct (fst x <=? fst y) eqn:E3; [|apply Z.leb_gt in E3; lia]. now rewrite (merge_cons z y), E1.
+      * cbn [insert]. destruct (fst x <=? fst y) eqn:E3; [now rewrite (merge_cons z y), E1 | now rewrite IH].
+Qed.
+Lemma isort_app_merge {A} (a b : list (Z * A)) : wsorted a -> wsorted b -> isort (a ++ b) = merge a b.
+Proof.
+  intros Sa Sb. induction Sa as [|x a Sa IH Fa]; cbn [app isort].
+  - rewrite merge_nil_l. induction Sb as [|y b Sb IHb Fb]; simpl; [reflexivity|]. rewrite IHb.
+    destruct b as [|z b]; [reflexivity|]. inversion Fb; subst. simpl. destruct (fst y <=? fst z) eqn:E; [reflexivity | apply Z.leb_gt in E; lia].
+  - rewrite IH. now apply insert_merge.
+Qed.
+Lemma insert_perm {A} (x : Z * A) l : Permutation (insert x l) (x :: l).
+Proof.
+  induction l as [|y l IH]; simpl; [reflexivity|]. destruct (fst x <=? fst y); [reflexivity|].
+  rewrite IH. apply perm_swap.
+Qed.
+Lemma isort_perm {A} (l : list (Z * A)) : Permutation (isort l) l.
+Proof. induction l as [|x l IH]; simpl; [constructor|]. rewrite insert_perm. now constructor. Qed.
+Lemma insert_wsorted {A} (x : Z * A) l : wsorted l -> wsorted (insert x l).
+Proof.
+  induction 1 as [|y l S IH F]; simpl; [repeat constructor|].
+  destruct (fst x <=? fst y) eqn:E.
+  - apply Z.leb_le in E. constructor; [now constructor|]. constructor; [exact E|].
+    eapply Forall_impl; [|exact F]. intros b Hb. simpl in *. lia.
+  - apply Z.leb_gt in E. constructor; [exact IH|]. apply Forall_forall. intros b Hb.
+    apply (Permutation_in _ (insert_perm x l)) in Hb. destruct Hb as [<-|Hb]; [lia|]. rewrite Forall_forall in F. now apply F.
+Qed.
+Lemma isort_wsorted {A} (l : list (Z * A)) : wsorted (isort l).
+Proof. induction l; simpl; [constructor | now apply insert_wsorted]. Qed.
+Lemma filter_disjoint_perm {A} (p q : A -> bool) l : (forall r, p r && q r = false) ->
+  Permutation (filter p l ++ filter q l) (filter (fun r => p r || q r) l).
+Proof.
+  intros D. induction l as [|a l IH]; simpl; [constructor|].
+  specialize (D a). destruct (p a), (q a); simpl in *; try discriminate.
+  - now constructor.
+  - rewrite <- Permutation_middle. now constructor.
+  - exact IH.
+Qed.
+
 (* a window of times of day whose start is later than its end wraps past midnight *)
+Lemma wrap_disjoint oc a b : b < a -> forall t,
+  le_ub day (snd oc) (BTod b) t && ge_lb day (fst oc) (BTod a) t = false.
+Proof.
+  intros L t. simpl. destruct (fst oc), (snd oc); simpl;
+    repeat match goal with |- context [?x <=? ?y] => destruct (Z.leb_spec x y) | |- context [?x <? ?y] => destruct (Z.ltb_spec x y) end;
+    simpl; try reflexivity; lia.
+Qed.
+(* any stored order, repeated timestamps allowed: every row of the two half windows is returned exactly once
+   (same multiset), in time order *)
+Theorem wrap_any {A} oc a b (rows : list (Z * A)) : b < a ->
+  Permutation (df_slice_one day oc (BTod a) (BTod b) rows)
+              (filter (fun r => ge_lb day (fst oc) (BTod a) (fst r) || le_ub day (snd oc) (BTod b) (fst r)) rows) /\
+  wsorted (df_slice_one day oc (BTod a) (BTod b) rows).
+Proof.
+  intros L. unfold df_slice_one, wrap_slice. pose proof L as L'. apply Z.ltb_lt in L'. rewrite L'.
+  split; [|apply isort_wsorted]. rewrite isort_perm, !slice1_exact_any.
+  rewrite (filter_ext _ (fun r => le_ub day (snd oc) (BTod b) (fst r))) by (intros r; unfold in_window; simpl; reflexivity).
+  rewrite (filter_ext (fun r => in_window day oc (BTod a) BNone (fst r)) (fun r => ge_lb day (fst oc) (BTod a) (fst r)))
+    by (intros r; unfold in_window; simpl; apply andb_true_r).
+  rewrite filter_disjoint_perm by (intros r; now apply wrap_disjoint).
+  erewrite filter_ext; [reflexivity|]. intros r. apply orb_comm.
+Qed.
 Theorem wrap_exact {A} oc a b (rows : list (Z * A)) : sorted rows -> b < a ->
   df_slice_one day oc (BTod a) (BTod b) rows =
   filter (fun r => ge_lb day (fst oc) (BTod a) (fst r) || le_ub day (snd oc) (BTod b) (fst r)) rows.
 Proof.
   intros S L. unfold df_slice_one, wrap_slice. apply Z.ltb_lt in L. rewrite L. apply Z.ltb_lt in L.
-  rewrite !slice1_exact by exact S. rewrite merge_filters; [|exact S|].
+  rewrite !slice1_exact by exact S.
+  rewrite isort_app_merge by (apply wsorted_filter, sorted_wsorted, S). rewrite merge_filters; [|exact S|].
   - apply filter_ext. intros r. unfold in_window. simpl. rewrite andb_true_r. apply orb_comm.
   - intros r. unfold in_window. simpl. rewrite andb_true_r.
     destruct (fst oc), (snd oc); simpl;
     repeat match goal with |- context [?x <=? ?y] => destruct (Z.leb_spec x y) | |- context [?x <? ?y] => destruct (Z.ltb_spec x y) end;
     simpl; try reflexivity; lia.
+Qed.
+Theorem no_wrap_exact_any {A} oc lb ub (rows : list (Z * A)) :
+  (forall a b, lb = BTod a -> ub = BTod b -> a <= b) ->
+  df_slice_one day oc lb ub rows = filter (fun r => in_window day oc lb ub (fst r)) rows.
+Proof.
+  intros H. unfold df_slice_one, wrap_slice. destruct lb as [| |a]; try apply slice1_exact_any.
+  destruct ub as [| |b]; try apply slice1_exact_any.
+  specialize (H a b eq_refl eq_refl). destruct (b <? a) eqn:E; [apply Z.ltb_lt in E; lia|]. apply slice1_exact_any.
 Qed.
 Theorem no_wrap_exact {A} oc lb ub (rows : list (Z * A)) : sorted rows ->
   (forall a b, lb = BTod a -> ub = BTod b -> a <= b) ->
